@@ -20,6 +20,7 @@ SIG = {
     'r': ['r()'],
     'q': ['d<>'],
     'v': ['v'],
+    'h': ['{', 'd<>'],
 }
 
 
@@ -53,6 +54,9 @@ def make_ctx_s(unknown=False, small=False):
     specials = [SpecialsSpec('~'), SpecialsSpec('--'), SpecialsSpec('---'), SpecialsSpec('&'),
                 SpecialsSpec('``'), SpecialsSpec("''"), SpecialsSpec('\n\n')]
     db.add_context_category('S', macros=macros, environments=envs, specials=specials)
+    # single-character specials that are prefixes of the two-character ones live in a later category
+    # (longest match must win across categories)
+    db.add_context_category('S2', specials=[SpecialsSpec('`'), SpecialsSpec("'")])
     if unknown:
         db.set_unknown_macro_spec(MacroSpec(''))
         db.set_unknown_environment_spec(EnvironmentSpec(''))
